@@ -313,6 +313,20 @@ impl ClosestPeersIter {
         // peers to contact, see `num_waiting`).
         let mut result_counter = Some(0);
 
+        // Unresponsive peers no longer count towards the limit for the bounded parallelism.
+        // They have to be found before the capacity check: a timed out peer that is farther
+        // from the target than a peer not yet contacted would otherwise never be reached
+        // below and block the iterator at capacity.
+        for peer in self.closest_peers.values_mut() {
+            if let PeerState::Waiting(timeout) = peer.state
+                && now >= timeout
+            {
+                debug_assert!(self.num_waiting > 0);
+                self.num_waiting -= 1;
+                peer.state = PeerState::Unresponsive
+            }
+        }
+
         // Check if the iterator is at capacity w.r.t. the allowed parallelism.
         let at_capacity = self.at_capacity();
 
